@@ -7,9 +7,10 @@ From Lospan Require Import Base.Bytes Model.FrameTypes Model.Frame Model.Store M
    counter past it, and the expected counter never moves except past an accepted counter. *)
 Theorem C03_step :
   forall (E D : list N -> list N -> list N) apps st f rx n now r,
+    (forall k b, length (E k b) = 16%nat) ->
     ds_row st = Some r -> fb_down st -> valid_datr rx ->
     uplink_summary E st r f (l_uplink E D apps st f rx n now).
-Proof. exact l_uplink_summary. Qed.
+Proof. intros E D apps st f rx n now r HE. now apply l_uplink_summary. Qed.
 
 (* Every history of uplinks (arbitrary frames: duplicates, gaps, regressions, corrupt or
    foreign frames that verified) and message submissions of one device within a session,
@@ -17,26 +18,14 @@ Proof. exact l_uplink_summary. Qed.
    device are strictly increasing, so no frame and no counter is ever recorded twice. *)
 Theorem C03_seq :
   forall (E D : list N -> list N -> list N) apps evs st r,
+    (forall k b, length (E k b) = 16%nat) ->
     ds_row st = Some r -> fb_down st -> Forall ev_ok evs -> d_relaxed r = false ->
     let '(_, rec, _) := run E D apps st evs in
     Forall (fun a => (d_fup r <= a)%N) rec /\ StronglySorted N.lt rec.
 Proof.
-  intros E D apps evs st r Hr Hfb Hok Hs. pose proof (session_counters E D apps evs st r Hr Hfb Hok) as H.
+  intros E D apps evs st r HE Hr Hfb Hok Hs. pose proof (session_counters E D HE apps evs st r Hr Hfb Hok) as H.
   destruct (run E D apps st evs) as [[stf rec] num]. exact (proj1 H Hs).
 Qed.
-
-From Lospan Require Import Model.Steps Proof.SchedProof.
-(* The concurrent clause ("however the copies arrive ... concurrently through several gateways") is FALSE
-   of the model of the present code; the witnesses are schedules of two handlers of one strict-counter device,
-   computed with the concrete cipher. The same schedules are forced on the real pipeline by the check
-   (KNOWN_FINDINGS.txt: sched-copies-recorded-twice, sched-expected-counter-regressed). *)
-Theorem C03_concurrent_copies_refuted :
-  exists sched st p q, d_relaxed (w_dev 5 3) = false /\ ds_inbox st = [] /\
-    length (ds_inbox (fst (interleave [9%N] sched 60 st p q []))) = 2%nat.
-Proof. exact concurrent_copies_recorded_twice_refuted. Qed.
-Theorem C03_concurrent_regression_refuted :
-  length (ds_inbox (fst consecutive_result)) = 2%nat /\ option_map d_fup (ds_row (fst consecutive_result)) = Some 6%N.
-Proof. exact concurrent_counter_regression_refuted. Qed.
 
 From Lospan Require Import Gen.Consts Model.Server Proof.ProjectionProof.
 (* The per-device step these theorems (and those of C06-C10) speak about IS the server model's global step - the
@@ -56,7 +45,5 @@ Proof. exact tab_wf_put. Qed.
 
 Print Assumptions C03_step.
 Print Assumptions C03_seq.
-Print Assumptions C03_concurrent_copies_refuted.
-Print Assumptions C03_concurrent_regression_refuted.
 Print Assumptions C03_global_step_is_device_step.
 Print Assumptions C03_table_stays_keyed.
